@@ -324,17 +324,18 @@ def bam_key_guard(ctx, L, rule="R-PEER-255"):
                 continue
             gl = lits(r.guards(i))
             ok = False
+            rel = [(g, p) for g, p in gl if contains(g, src)]
+            if rel:
+                try:
+                    ok = G.implies(G.conj(rel), mk_not(mk_cmp("==", src, ("c", 255))))[0]
+                except AnalysisError:
+                    ok = False
             for g, p in gl:
                 if g[0] == "cmp" and g[1] == "==" and not p:
-                    a, b = g[2], g[3]
-                    if {a, b} == {src, ("c", 255)}:
-                        ok = True
                     # per-session test: matched entry's dest_address != GLOBAL
-                    for x, y in ((a, b), (b, a)):
+                    for x, y in ((g[2], g[3]), (g[3], g[2])):
                         if y == ("c", 255) and x[0] == "sub" and x[2] == ("c", "dest_address") and root_field(x) == "_snd_buffer":
                             ok = True
-                if g[0] == "cmp" and g[1] == "<" and p and g[2] == src and is_const(g[3]) and isinstance(g[3][1], int) and g[3][1] <= 255:
-                    ok = True
             lab = _ctl_label(L, gl)
             key = "%s %s arm: send-session effect only for a legal peer" % (L.tag, lab)
             if ok:
